@@ -75,7 +75,8 @@ let infer (f : fn) : (astate list) array * (int * string * string) option =
   while not (Queue.is_empty work) do
     let (p, st) = Queue.pop work in
     (match asucc f.code f.fi f.is_main (n_of p) st with
-     | SReject -> if !first_reject = None then first_reject := Some (p, "stack-or-scope-underflow-or-bad-target", show_astate st)
+     | SReject -> if !first_reject = None then
+         first_reject := Some (p, (match List.nth_opt f.code p with Some IUnknown -> "unknown-instruction-type" | _ -> "stack-or-scope-underflow-or-bad-target"), show_astate st)
      | SVacuous -> ()
      | SHalt st' -> if not (astate_eqb st' ret_state) && !first_reject = None then first_reject := Some (p, "return-with", show_astate st')
      | SNext (ts, st') ->
